@@ -54,6 +54,7 @@ REQUIRED = ["io_roundtrips", "io_tiff", "io_npy", "io_nrrd", "io_uint_to_float",
             "io_same_kind", "io_size1_axis", "io_rgb", "io_3d_input", "rasters", "voxels_compared",
             "voxels_lit", "raster_anisotropic", "raster_generic_resolution", "raster_far_positions",
             "raster_saved_and_read", "raster_explicit_ranges", "raster_thin_tiles",
+            "raster_whole_brain_coordinates",
             "rasters_after_inplace_edit",
             "tap_get_samplers"]
 FLOOR = {"quick": 450, "thorough": 9000}
@@ -456,6 +457,7 @@ def run(ctx):
                 if rng.random() < 0.3:
                     res = [res[0]] * 3
             far = rng.random()
+            whole_brain = False
             origin = [0.0, 0.0, 0.0]
             if far < 0.5:
                 origin = (rng.normal(0, 1, 3) * 60).round(2).tolist()
@@ -464,9 +466,10 @@ def run(ctx):
             elif far < 0.8:
                 # whole-brain coordinates, finely sampled (exactly representable: multiples of 1/8
                 # around 2^14): segments are short compared with the coordinates, not degenerate
-                origin = (rng.choice([-1, 1], 3) * rng.choice([16384.0, 24576.0, 8192.0], 3)
+                origin = (rng.choice([-1, 1], 3) * rng.choice([16384.0, 24576.0, 32768.0], 3)
                           ).tolist()
-                res = [float(rng.choice([0.125, 0.25]))] * 3
+                res = [0.125] * 3
+                whole_brain = True
             rc = {"shape": str(rng.choice(["chain", "binary", "recursive", "star", "neuron",
                                            "pair"])),
                   "n": int(rng.integers(2, 31)), "seed": int(rng.integers(0, 2**31 - 1))}
@@ -479,6 +482,10 @@ def run(ctx):
                     "res_form": str(rng.choice(["list", "tuple", "array", "array32"]))}
             if case["ranges"] == "slab":  # long thin segments, so that they cross the tile
                 case["step"], case["rscale"] = 6.0, 0.8
+            if whole_brain:  # short segments (1-2 voxels of 1/8), still far longer than an ulp
+                case["step"], case["rscale"], case["ranges"] = 1.5, 0.8, "auto"
+                case["tree"]["n"] = min(case["tree"]["n"], 12)
+                ctx.count("raster_whole_brain_coordinates")
             ctx.case(case, klass="raster")
             execute(ctx, case)
     ctx.count("tap_get_samplers", tap.counts["get_samplers"])
